@@ -651,6 +651,7 @@ def run(ctx):
                 "exact-rational parameter sets; min-change on/off with coins_per_utxo_byte in {0,1000,4310,34482}; "
                 "random-improve: the whole tree of index choices to depth 6 (indices 0..len+1) on pools of size <= 3, "
                 "random index streams (25% with out-of-range entries) and the random-module path seeded from ctx.rng; "
+                "multi-round pools (every entry ADA + 1..3 tokens, request about a third of the pool, small repeated indices); "
                 "a case is non-trivial if it is a distinct (selector, pool, request, flags, stream)")
     ctx.assumptions = [
         "pool and request quantities are non-negative and inputs pairwise distinct (points outside: correspondence only)",
@@ -725,6 +726,29 @@ def run(ctx):
             check_select(ctx, base_case("ri", pool, outs, params, cpb, l, f, m, stream=None, seed=rng.getrandbits(32)))
         else:
             check_select(ctx, base_case("ri", pool, outs, params, cpb, l, f, m, stream=rand_stream(rng, n, bad=0.25 if rng.random() < 0.25 else 0.0)))
+        if ctx.violations:
+            return
+
+    # ---- (D2) several improvement rounds on one pool: every entry carries ADA and tokens in amounts comparable to the
+    # request (about a third of the pool), so that each asset's round accepts entries and later rounds draw among the
+    # same indices (repeated picks, stale `remaining`, bookkeeping across rounds)
+    for _ in range(ctx.budget(700, 12000)):
+        n = rng.randint(3, 7)
+        toks = rng.sample(TOKENS, rng.choice([1, 1, 2, 3]))
+        amounts = [vj(rng.choice([1_000_000, 1_500_000, 2_000_000, 3_000_000, 6_000_000]),
+                      {t: rng.randint(1, 12) for t in toks if rng.random() < 0.8}) for _ in range(n)]
+        coin, assets = o_sum([V.content_value(a) for a in amounts])
+        req = vj(max(coin // rng.choice([3, 4, 5]), 1), {t: max(q // rng.choice([3, 4, 5]), 1) for t, q in assets.items() if q > 0})
+        params, cpb = rng.choice(PARAM_SETS), rng.choice([0, 4310])
+        l = rng.choice([None, None, None, n, n - 1])
+        mn = rng.random() < 0.3
+        pool = mk_pool(amounts)
+        if rng.random() < 0.3:
+            check_select(ctx, base_case("ri", pool, [req], params, cpb, l, False, mn, stream=None, seed=rng.getrandbits(32)))
+        else:
+            stream = [rng.choice([0, 0, 1, rng.randint(0, n - 1)]) for _ in range(rng.randint(4, 3 * n + 6))]
+            check_select(ctx, base_case("ri", pool, [req], params, cpb, l, False, mn, stream=stream))
+        ctx.count("ri:multi-round")
         if ctx.violations:
             return
 
